@@ -436,6 +436,9 @@ def classify(d, rc, sup_rc):
 
 
 # ------------------------------------------------------------------------------------- repository driver
+TWIN = 'root/twin'
+
+
 def new_conn(qd, names=()):
     """A fresh mock server with the named qualifier declarations (lower-cased names)."""
     conn = FakedWBEMConnection()
@@ -466,12 +469,17 @@ class Repo:
         self.qd = qd
         self.path = path
         self.conn = new_conn(qd)
+        self.twin = None        # second namespace that receives THE SAME request objects again (CreateClass/ModifyClass path)
+        if path != 'MOF':
+            self.conn.add_namespace(TWIN)
+            self.twin = TWIN
         self.have = set()       # qualifier declarations already in the repository
         self.decls = []         # accepted declarations in creation order
         self.model = {}         # lname -> resolved class
         self.tried = []         # every declaration handed to the server
         self.diffs = {}         # lname -> set of difference signatures of the last check (cascade suppression)
         self.diverged = False   # the server accepted what the model refuses: class set no longer comparable
+        self.twin_off = False   # the twin namespace fell behind (reported once)
 
     def info(self, elem=None, **kw):
         d = dict(path=self.path, mof=focus(self.tried, self.qd, elem))
@@ -503,11 +511,26 @@ class Repo:
             else:
                 for q in self.qd.pywbem(missing):
                     self.conn.SetQualifier(q)
+                    if self.twin:
+                        self.conn.SetQualifier(q, namespace=self.twin)
                 self.have |= missing
+                request = to_pywbem(decl, self.qd)
                 if op == 'modify':
-                    self.conn.ModifyClass(to_pywbem(decl, self.qd))
+                    self.conn.ModifyClass(request)
                 else:
-                    self.conn.CreateClass(to_pywbem(decl, self.qd))
+                    self.conn.CreateClass(request)
+                if self.twin and not self.twin_off:
+                    # a caller may use its CIMClass object for the next request: the identical hierarchy in a second
+                    # namespace is built from the very same objects and must resolve to the very same classes
+                    try:
+                        if op == 'modify':
+                            self.conn.ModifyClass(request, namespace=self.twin)
+                        else:
+                            self.conn.CreateClass(request, namespace=self.twin)
+                    except Exception as e2:         # noqa
+                        R.violation('%s-refuses-the-request-object-when-it-is-used-again' % op,
+                                    **self.info(cls=decl['name'], error=repr(e2)[:200]))
+                        self.twin_off = True
         except CIMError as e:
             err = e.status_code
         except Error as e:
@@ -649,6 +672,17 @@ class Repo:
             R.violation('getclass-raises-%s' % type(e).__name__, **self.info(cls=rc['name'], step=ctx,
                                                                              error=repr(e)[:200]))
             return None
+        if self.twin and not self.twin_off:
+            try:
+                obs2 = canon(self.conn.GetClass(rc['name'], namespace=self.twin, LocalOnly=False, IncludeQualifiers=True,
+                                                IncludeClassOrigin=True))
+            except Exception as e:      # noqa
+                obs2 = 'GetClass raises ' + repr(e)[:200]
+            if obs2 != obs:
+                dd = diff_class(obs, obs2) if isinstance(obs2, dict) else [obs2]
+                R.violation('request-object-used-again-resolves-to-a-different-class',
+                            **self.info(cls=rc['name'], step=ctx, first_use_vs_second_use=dd[:4]))
+                self.twin_off = True
         sup = self.model.get(rc['sup']) if rc['sup'] else None
         supdiffs = self.diffs.get(rc['sup'], set()) if rc['sup'] else set()
         mine = self.diffs[lname] = set()
